@@ -21,7 +21,7 @@ type confirmed struct {
 func finish(run *PropRun) int {
 	id := run.Spec.ID
 	kfs := loadKnownFindings()
-	replayDir := filepath.Join(verifDir, "replays")
+	replayDir := filepath.Join(outDir(), "replays")
 	os.MkdirAll(replayDir, 0o755)
 	// remove stale replay files of this property
 	if old, _ := filepath.Glob(filepath.Join(replayDir, id+"-*.json")); old != nil {
@@ -321,8 +321,8 @@ func writeEvidence(run *PropRun, tracesValidated, traceMismatch, nviol, nknown, 
 		"wall_s":      time.Since(run.Started).Seconds(),
 		"violations":  nviol,
 	}
-	os.MkdirAll(filepath.Join(verifDir, "evidence"), 0o755)
-	writeJSON(filepath.Join(verifDir, "evidence", id+".json"), ev)
+	os.MkdirAll(filepath.Join(outDir(), "evidence"), 0o755)
+	writeJSON(filepath.Join(outDir(), "evidence", id+".json"), ev)
 }
 
 func jsonUnmarshal(b []byte, v any) error { return json.Unmarshal(b, v) }
@@ -333,3 +333,7 @@ func mapOrderNote(fixed bool) string {
 	}
 	return "all orders for maps of <= 4 entries, all rotations of the insertion order beyond; entries inserted during iteration produced or skipped"
 }
+
+// outDir: where evidence and replay files go (VERIF_OUT redirects them, used
+// when the checks are tried against a scratch copy carrying a seeded change).
+func outDir() string { return envOr("VERIF_OUT", verifDir) }
